@@ -30,7 +30,10 @@ def run_case(case, rec, cid):
     via = case["via"]
 
     def f():
-        if via == "to_utc":
+        if via == "to_local":
+            from harness.drivers.c18 import with_zone
+            q = with_zone(case["sys"], p.to_local_time_zone)
+        elif via == "to_utc":
             q = p.to_utc()
         elif via == "to_time_zone":
             q = p.to_time_zone(TimeZone(hours=zh, minutes=zm))
@@ -88,7 +91,12 @@ def expand(job):
             p = gen.rand_point(rnd, m, wide=rnd.random() < 0.2, whole=rnd.random() < 0.85, allow24=rnd.random() < 0.3)
             zh, zm = rnd.choice(gen.ZONES) if rnd.random() < 0.6 else rnd.choice(all_zones())
             x = rnd.random()
-            if x < 0.15:
+            if x < 0.08:
+                off = rnd.choice([0, 60, -300, 330, -210, 765, -30, 30, 840, -720, rnd.randint(-1439, 1439)])
+                sysz = {"tz": -off * 60, "alt": -(off + 60) * 60, "daylight": 0, "isdst": 0}
+                lz = (off // 60, off % 60) if off >= 0 else (-((-off) // 60), -((-off) % 60))
+                yield {"mode": sp, "p": p, "zh": lz[0], "zm": lz[1], "via": "to_local", "sys": sysz}
+            elif x < 0.15:
                 yield {"mode": sp, "p": p, "zh": 0, "zm": 0, "via": "to_utc"}
             elif x < 0.6 or "dec" in p or p["prec"] != "hms" or p["hh"] == 24:
                 yield {"mode": sp, "p": p, "zh": zh, "zm": zm, "via": "to_time_zone"}
